@@ -15,10 +15,10 @@
      C16_values_directly_eq_nodes_then_values, C16_json_reference_eq_tree_reference).
    Scope of the hypothesis [simple_path]: no component uses the descendant separator '>'
    (an executable predicate on the path).  For paths WITH descendant steps (every separator
-   one of / . >: executable [wf_path]) the same equality is proved against the nodes-first
-   form of the reference, a descendant step being the structural search of all composite
-   nodes of the rendering, under the executable hypothesis that the rendering is saturated:
-   C16_query_eq_reference_descendant (end of this file).  Fuel monotonicity holds for every
+   one of / . >: executable [wf_path]) the same equality is proved, a descendant step being
+   the structural search of all composite nodes of the rendering, under the executable
+   hypothesis that the rendering is saturated: C16_query_eq_reference_all (values directly)
+   and C16_query_eq_reference_descendant (nodes first), end of this file.  Fuel monotonicity holds for every
    path (C16_fuel_monotone).
    Also proved: the subset selector; document order of every selection; only value nodes
    yield values. *)
@@ -275,6 +275,23 @@ Theorem C16_query_eq_reference_descendant_wf : forall attrs ia vals labels K fue
   eval_json_nodes labels (render_nodes attrs ia vals K nodes) (p_comps p).
 Proof. exact query_desc_eq_reference. Qed.
 Print Assumptions C16_query_eq_reference_descendant_wf.
+
+(* over the rendering, values directly = nodes first then values, for EVERY path (descendant
+   steps included), error classes included *)
+From PBK Require Import QueryRefJsonValues.
+Theorem C16_json_values_directly_eq_nodes_first : forall labels nested cs,
+  eval_json labels nested cs = eval_json_nodes labels nested cs.
+Proof. exact eval_json_fusion. Qed.
+Print Assumptions C16_json_values_directly_eq_nodes_first.
+
+(* hence C16 for every path the parser can produce against the values-directly reference *)
+Theorem C16_query_eq_reference_all : forall ndesc vals links T nodes s ia labels K fuel p,
+  wire ndesc vals links T = Ok (nodes, s) -> wf_path (p_comps p) = true -> saturated (x_attrs s) K = true ->
+  (2 * jheight (JSeqN 0 (render_nodes (x_attrs s) ia vals K nodes)) + 3 * length (p_comps p) + 2 <= fuel)%nat ->
+  process_one_subset (x_attrs s) labels fuel nodes p =
+  eval_json labels (render_nodes (x_attrs s) ia vals K nodes) (p_comps p).
+Proof. exact query_eq_reference_all. Qed.
+Print Assumptions C16_query_eq_reference_all.
 
 (* what one descendant step of the implementation looks at: the selected matches and the
    composite nodes with another label, in document order *)
